@@ -9,4 +9,31 @@ pub assume_specification[ usize::next_power_of_two ](x: usize) -> (r: usize)
 pub assume_specification[ usize::trailing_zeros ](x: usize) -> (r: u32)
     ensures x == 0 ==> r == usize::BITS,
             x != 0 ==> r < usize::BITS,
-            is_pow2(x as nat) ==> pow2(r as nat) == x;
+            is_pow2(x as nat) ==> pow2(r as nat) == x && r as nat == log2f(x as nat);
+
+// further std integer functions a rewrite of the helpers may reach for (ASSUMED, A-std)
+pub assume_specification[ usize::div_ceil ](a: usize, b: usize) -> (r: usize)
+    requires b > 0,
+    ensures r as int == (a as int + b as int - 1) / (b as int);
+
+pub assume_specification[ usize::count_ones ](x: usize) -> (r: u32)
+    ensures r <= usize::BITS, (r == 0) == (x == 0), (r == 1) == is_pow2(x as nat);
+
+pub assume_specification[ usize::ilog2 ](x: usize) -> (r: u32)
+    requires x > 0,
+    ensures r < usize::BITS, pow2(r as nat) <= x, (x as nat) < 2 * pow2(r as nat);
+
+pub assume_specification[ usize::leading_zeros ](x: usize) -> (r: u32)
+    ensures x == 0 ==> r == usize::BITS,
+            x != 0 ==> r < usize::BITS && pow2((usize::BITS - 1 - r) as nat) <= x && (x as nat) < 2 * pow2((usize::BITS - 1 - r) as nat);
+
+pub assume_specification[ usize::abs_diff ](a: usize, b: usize) -> (r: usize)
+    ensures r == (if a >= b { a - b } else { b - a });
+
+pub assume_specification[ usize::div_euclid ](a: usize, b: usize) -> (r: usize)
+    requires b > 0,
+    ensures r == a / b;
+
+pub assume_specification[ usize::rem_euclid ](a: usize, b: usize) -> (r: usize)
+    requires b > 0,
+    ensures r == a % b;
